@@ -28,7 +28,7 @@ Theorem C13_proxy_op_is_list_op : forall st k v o,
   | Ok (L', r) =>
       exists st', sl_step eqb sortf st (View k) o = Ok (st', r) /\
         (exists v', nth_error (views st') k = Some v' /\ v_store v' = v_store v /\
-                    V_read st' v' = Ok L') /\
+                    v_start v' = v_start v /\ V_read st' v' = Ok L') /\
         store st' (v_store v)
           = firstn (Z.to_nat (v_start v)) (store st (v_store v)) ++ L'
             ++ skipn (Z.to_nat (V_stop st v)) (store st (v_store v))
